@@ -283,7 +283,7 @@ func newFamily(name string) *family {
 }
 
 func Run(c *core.Ctx) {
-	c.Rule = "histories over 4 scripts (one sharing its name with a class id, one sometimes without a call) x 4 component classes x 4 plain names (one equal to a class id) in all 17 container forms (nested to depth 2) x 3 once handles (block or fixed component, bodies nested to depth 2, possibly using their own handle) x 1-3 contexts (plain or through NewCSSMiddleware with a random class subset, with or without nonce); single-form and form-pair sweeps, all histories up to the tier's length over a 13-use alphabet, random histories; distinct non-trivial = distinct histories in which some item is used at least twice in one context (suppression matters)"
+	c.Rule = "histories over 4 scripts (one sharing its name with a class id, one sometimes without a call) x 4 component classes x 4 plain names (one equal to a class id) in all 17 container forms (nested to depth 2) x 3 once handles (block or fixed component, bodies nested to depth 2, possibly using their own handle) x 1-3 contexts (plain or through NewCSSMiddleware with a random class subset, with or without nonce); single-form and form-pair sweeps, all histories up to the tier's length over a 13-use alphabet, random histories; 2-4 page requests through ONE middleware instance (registered and unregistered classes and scripts, pages rendered inside the handler one after the other and concurrently, every pair of the 13 uses split over two requests); probe templates include elements whose class and on* attributes sit under attribute-level if/else blocks nested to depth 3; distinct non-trivial = distinct histories in which some item is used at least twice in one context (suppression matters)"
 	c.Trusted = append(c.Trusted,
 		"specification spec/RegistrySpec.v (abstract log, at_most_once, before_first_use, wanted uses, held classes, check_log)",
 		"the reading of a document back into definitions and uses (harness readBack; cross-checked against the model's own log on every history)",
@@ -397,6 +397,56 @@ func Run(c *core.Ctx) {
 	}
 	fam.absorb(c, hs, evalBatch(c, hs))
 	fam.oblige(c)
+	// 4. several page requests through ONE middleware instance: registered and unregistered classes and scripts,
+	//    pages rendered inside the request handler, one after the other and all at once
+	fam = newFamily("requests through one middleware instance")
+	hs = nil
+	shared := []Cfg{{MW: true, Inst: 1, Classes: []Class{kk0, {Kind: "L", N: "x"}}}, {MW: true, Inst: 1, Classes: []Class{kk0, {Kind: "L", N: "x"}}}}
+	for _, a := range alpha {
+		for _, b := range alpha {
+			for _, pages := range []string{"seq", ""} {
+				hs = append(hs, Hist{Cfgs: shared, Ops: []COp{{0, a}, {1, b}}, Pages: pages})
+			}
+		}
+	}
+	genReqs := func(pages string) Hist {
+		g := &histGen{r: r, handles: map[int]*handleInfo{}}
+		var h Hist
+		reg := []Class{{Kind: "K", C: pc(mkCls(r.Intn(len(classIDs))))}}
+		for i := r.Intn(3); i > 0; i-- {
+			reg = append(reg, genClass(r))
+		}
+		nreq := 2 + r.Intn(3)
+		for k := 0; k < nreq; k++ {
+			cf := Cfg{MW: true, Inst: 1, Classes: reg}
+			if r.Intn(4) == 0 {
+				cf.Nonce = "n" + fmt.Sprint(k)
+			}
+			h.Cfgs = append(h.Cfgs, cf)
+			for i := 1 + r.Intn(5); i > 0; i-- {
+				h.Ops = append(h.Ops, COp{Ctx: k, Op: g.op(2)})
+			}
+		}
+		h.Pages = pages
+		return h
+	}
+	for i := c.N(400, 4000); i > 0; i-- {
+		hs = append(hs, genReqs("seq"))
+		c.Hist("one instance: requests one after the other")
+	}
+	fam.absorb(c, hs, evalBatch(c, hs))
+	if len(c.Fails) == 0 {
+		// concurrent requests only once the sequential ones are clean: a registry shared between requests would be a
+		// data race on a Go map, which ends the process instead of producing a report
+		hs = nil
+		for i := c.N(150, 3000); i > 0; i-- {
+			hs = append(hs, genReqs("par"))
+			c.Hist("one instance: requests all at once")
+		}
+		fam.absorb(c, hs, evalBatch(c, hs))
+	}
+	fam.oblige(c)
+
 	ex := genHist(r, 6)
 	c.Sample(map[string]any{"history": ex, "documents": runImpl(ex).Docs})
 
